@@ -201,8 +201,10 @@ func x01ReplayJoin(env *Env, c *x01Case, i int, bindir, dir string, pick bool) {
 			compare("lib", got, "MakeJoinWorker")
 		}
 	}
-	// command level: the seeded share, every case that relies on the default key, and a quarter of the --by l=r cases
-	if bindir == "" || !(pick || len(c.By) == 0 || (c.Byname == "ab" && i%4 == 0)) {
+	// command level: the seeded share, the cases that rely on the default key (all of them, or one in `dfltevery`), a quarter
+	// of the --by l=r cases
+	dflt := len(c.By) == 0 && i%max(1, env.optInt("dfltevery", 1)) == 0
+	if bindir == "" || !(pick || dflt || (c.Byname == "ab" && i%4 == 0)) {
 		return
 	}
 	mainf, partf, ok := x01JoinFiles(dir, "j"+strconv.Itoa(i), c.Flags, []x01Rec{c.Main}, c.Part)
